@@ -107,8 +107,8 @@ def run_inputs(build, inputs, jobs=None, timeout=20, hooks=True, env_extra=None,
                 cmd = " ".join("'%s'" % a for a in args)
                 pre = "cd w%d && " % i if inp.files else ""
                 envs = ("ALDOR_VERIF_TRACE='%s/r%d.nd' " % (d, i)) if hooks else ""
-                fh.write("(%s%stimeout -k 2 %s %s > '%s/r%d.out' 2>&1 < /dev/null); echo %d $? >> job%d.rc\n"
-                         % (pre, envs, inp.timeout or timeout, cmd, d, i, i, j))
+                line = "%s%stimeout -k 2 %s %s > '%s/r%d.out' 2>&1 < /dev/null" % (pre, envs, inp.timeout or timeout, cmd, d, i)
+                fh.write("%s; echo %d $? >> job%d.rc\n" % (("(%s)" % line) if pre else line, i, j))
         e = dict(os.environ)
         e.pop("ALDOR_VERIF_TRACE", None)
         if env_extra:
